@@ -18,12 +18,17 @@ PREFIXES = ["profile", "extract", "nan_test", "read_only_verify"]
 class Gen:
     """Generates one routine body as a small AST:
     ("assign", text) | ("write",) | ("if", cond, then, else|None, single_line) | ("do", var, body)
-    | ("while", depth, body) | ("exit",) | ("cycle",) | ("ret",) | ("goto", L) | ("label", L)"""
+    | ("while", depth, body) | ("exit",) | ("cycle",) | ("ret",) | ("goto", L) | ("label", L)
+    | ("assoc", body) | ("block", body) | ("ndo", name, var, body) | ("select", [bodies], default|None)
+    | ("exitn", name) | ("cyclen", name)
+    ASSOCIATE, BLOCK and a DO whose construct name is referenced are kept as whole CodeBlocks by
+    PSyclone: everything inside them only exists in the fparser2 parse tree."""
 
     def __init__(self, rng, budget):
         self.rng = rng
         self.budget = budget
         self.next_label = 100
+        self.next_name = 1
         self.features = set()
 
     def idx(self, loopvars):
@@ -40,20 +45,54 @@ class Gen:
         return ("assign", r.choice([f"b({ix}) = b({ix}) + 0.25", f"x = x + a({ix})", f"a({ix}) = x * 0.5",
                                     f"x = x + 1.0", f"b({ix}) = a({ix}) * 0.5"]))
 
-    def transfer(self, in_loop, avail):
-        """a control-transfer statement that is legal here"""
+    def transfer(self, in_loop, avail, dname):
+        """a control-transfer statement that is legal here (`dname`: construct name of the innermost
+        enclosing loop if it has one)"""
         r = self.rng
         opts = [("ret",)] * 2
         if in_loop:
             opts += [("exit",)] * 4 + [("cycle",)] * 3
+        if dname:
+            opts += [("exitn", dname)] * 3 + [("cyclen", dname)] * 2
         opts += [("goto", L) for L in avail] * 4
         t = r.choice(opts)
-        self.features.add(t[0])
+        self.features.add({"exitn": "exit", "cyclen": "cycle"}.get(t[0], t[0]))
         return t
 
-    def stmts(self, depth, loopvars, nwhile, avail, top=False):
+    def guarded(self, loopvars, in_loop, labels, dname):
         r = self.rng
-        n = r.randint(3, 6) if top else r.randint(1, 3)
+        t = self.transfer(in_loop, labels, dname)
+        if r.random() < 0.5:
+            return ("if", self.cond(loopvars), [t], None, True)
+        pre = [self.assign(loopvars)] if r.random() < 0.6 else []
+        els = [self.assign(loopvars)] if r.random() < 0.3 else None
+        return ("if", self.cond(loopvars), pre + [t], els, False)
+
+    def clean_if(self, loopvars):
+        r = self.rng
+        then = [self.assign(loopvars) for _ in range(r.randint(1, 2))]
+        els = [self.assign(loopvars)] if r.random() < 0.3 else None
+        return ("if", self.cond(loopvars), then, els, False)
+
+    def construct(self, depth, loopvars, nwhile, labels, dname, cbdepth):
+        """a block construct that PSyclone keeps as one CodeBlock"""
+        r = self.rng
+        kind = r.choice(["assoc", "assoc", "block", "ndo"] if len(loopvars) < 3 else ["assoc", "block"])
+        self.features.add("cb-" + kind)
+        self.budget += 2
+        if kind == "ndo":
+            v = LOOPVARS[len(loopvars)]
+            name = f"nm{self.next_name}"
+            self.next_name += 1
+            body = self.stmts(depth + 1, loopvars + [v], 0, labels, dname=name, cbdepth=cbdepth + 1)
+            ref = ("if", self.cond(loopvars + [v]), [r.choice([("exitn", name), ("cyclen", name)])], None, True)
+            body.insert(r.randint(0, len(body)), ref)    # the name must be referenced
+            return ("ndo", name, v, body)
+        return (kind, self.stmts(depth + 1, loopvars, nwhile, labels, dname=dname, cbdepth=cbdepth + 1))
+
+    def stmts(self, depth, loopvars, nwhile, avail, top=False, dname=None, cbdepth=0):
+        r = self.rng
+        n = r.randint(3, 6) if top else (r.randint(2, 5) if cbdepth else r.randint(1, 3))
         own, pos = None, None
         if n >= 2 and r.random() < (0.4 if top else 0.15):
             own, pos = self.next_label, r.randint(1, n)
@@ -63,46 +102,61 @@ class Gen:
             if own is not None and s == pos:
                 out.append(("label", own))
             labels = avail + ([own] if own is not None and s < pos else [])
+            in_loop = bool(loopvars) or nwhile > 0
+            if cbdepth:
+                # inside a CodeBlock construct: dense mix of clean nested constructs and transfers
+                c = r.random()
+                if c < 0.22:
+                    out.append(self.assign(loopvars))
+                elif c < 0.47:
+                    out.append(self.clean_if(loopvars))
+                elif c < 0.74:
+                    out.append(self.guarded(loopvars, in_loop, labels, dname))
+                elif c < 0.82 and depth < 4:
+                    bodies = [[self.assign(loopvars)] if r.random() < 0.5 else
+                              [self.guarded(loopvars, in_loop, labels, dname)] for _ in range(r.randint(1, 2))]
+                    dflt = [self.assign(loopvars)] if r.random() < 0.5 else None
+                    out.append(("select", bodies, dflt))
+                    self.features.add("select")
+                elif cbdepth < 2 and depth < 4:
+                    out.append(self.construct(depth, loopvars, nwhile, labels, dname, cbdepth))
+                else:
+                    out.append(self.clean_if(loopvars))
+                continue
             if self.budget <= 0:
                 out.append(self.assign(loopvars))
                 continue
             self.budget -= 1
             c = r.random()
-            in_loop = bool(loopvars) or nwhile > 0
-            if c < 0.22:
+            if c < 0.20:
                 out.append(self.assign(loopvars))
-            elif c < 0.29:
+            elif c < 0.26:
                 out.append(("write",))
-            elif c < 0.56:
-                # guarded transfer
-                t = self.transfer(in_loop, labels)
-                if r.random() < 0.5:
-                    out.append(("if", self.cond(loopvars), [t], None, True))
-                else:
-                    pre = [self.assign(loopvars)] if r.random() < 0.6 else []
-                    els = [self.assign(loopvars)] if r.random() < 0.3 else None
-                    out.append(("if", self.cond(loopvars), pre + [t], els, False))
-            elif c < 0.70 and depth < 3:
-                then = self.stmts(depth + 1, loopvars, nwhile, labels)
-                els = self.stmts(depth + 1, loopvars, nwhile, labels) if r.random() < 0.4 else None
+            elif c < 0.50:
+                out.append(self.guarded(loopvars, in_loop, labels, dname))
+            elif c < 0.62 and depth < 3:
+                then = self.stmts(depth + 1, loopvars, nwhile, labels, dname=dname)
+                els = self.stmts(depth + 1, loopvars, nwhile, labels, dname=dname) if r.random() < 0.4 else None
                 out.append(("if", self.cond(loopvars), then, els, False))
-            elif c < 0.88 and depth < 3 and len(loopvars) < 3:
+            elif c < 0.78 and depth < 3 and len(loopvars) < 3:
                 v = LOOPVARS[len(loopvars)]
-                out.append(("do", v, self.stmts(depth + 1, loopvars + [v], nwhile, labels)))
+                out.append(("do", v, self.stmts(depth + 1, loopvars + [v], 0, labels)))
                 self.features.add("do")
-            elif c < 0.94 and depth < 3 and nwhile < 2:
+            elif c < 0.83 and depth < 3 and nwhile < 2:
                 d = nwhile + 1
                 body = [("assign", f"c{d} = c{d} + 1")] + self.stmts(depth + 1, loopvars, d, labels)
                 out.append(("assign", f"c{d} = 0"))
                 out.append(("while", d, body))
                 self.features.add("while")
+            elif c < 0.95 and depth < 3:
+                out.append(self.construct(depth, loopvars, nwhile, labels, dname, 0))
             else:
                 out.append(self.assign(loopvars))
         if own is not None and pos == n:
             out.append(("label", own))
         if r.random() < 0.08 and not top:
             # a bare transfer as the last statement of a block
-            out.append(self.transfer(bool(loopvars) or nwhile > 0, avail))
+            out.append(self.transfer(bool(loopvars) or nwhile > 0, avail, dname))
         return out
 
 
@@ -125,6 +179,31 @@ def emit(stmts, ind=2):
             lines.append(pad + f"goto {s[1]}")
         elif k == "label":
             lines.append(f"{s[1]} continue")
+        elif k == "exitn":
+            lines.append(pad + f"exit {s[1]}")
+        elif k == "cyclen":
+            lines.append(pad + f"cycle {s[1]}")
+        elif k == "assoc":
+            lines.append(pad + "associate (q => x)")
+            lines += emit(s[1], ind + 2)
+            lines.append(pad + "end associate")
+        elif k == "block":
+            lines.append(pad + "block")
+            lines += emit(s[1], ind + 2)
+            lines.append(pad + "end block")
+        elif k == "ndo":
+            lines.append(pad + f"{s[1]}: do {s[2]} = 1, n")
+            lines += emit(s[3], ind + 2)
+            lines.append(pad + f"end do {s[1]}")
+        elif k == "select":
+            lines.append(pad + "select case (int(x))")
+            for n, body in enumerate(s[1]):
+                lines.append(pad + (f"case ({n})" if n else "case (0, 3)"))
+                lines += emit(body, ind + 2)
+            if s[2] is not None:
+                lines.append(pad + "case default")
+                lines += emit(s[2], ind + 2)
+            lines.append(pad + "end select")
         elif k == "if":
             _, cond, then, els, single = s
             if single:
@@ -158,7 +237,8 @@ def gen_program(rng):
         g = Gen(rng, rng.randint(5, 10))
         body = g.stmts(0, [], 0, [], top=True)
         f = g.features
-        if attempt == 5 or (f & {"do", "while"} and f & {"exit", "cycle", "goto", "ret"}) or rng.random() < 0.1:
+        if attempt == 5 or (f & {"do", "while", "cb-ndo"} and f & {"exit", "cycle", "goto", "ret"}) \
+                or rng.random() < 0.1:
             break
     return source_of(body), sorted(g.features)
 
@@ -180,36 +260,113 @@ class Ids:
 CALL_RE = re.compile(r"CALL\s+(\w+)\s*%\s*(\w+)\s*(?:\((.*)\))?\s*$", re.I | re.S)
 
 
-def abs_codeblock(cb, ids, lowered_names=None):
-    from fparser.two import Fortran2003 as F
+def abs_fp_list(nodes, ids, lowered_names):
     out = []
-    for nd in cb.get_ast_nodes:
-        label = getattr(getattr(nd, "item", None), "label", None)
-        if label:
-            out.append(["label", int(label)])
-        if isinstance(nd, F.Exit_Stmt):
-            out.append("exit")
-        elif isinstance(nd, F.Cycle_Stmt):
-            out.append("cycle")
-        elif isinstance(nd, F.Goto_Stmt):
-            out.append(["goto", int(str(nd.items[0]))])
-        elif isinstance(nd, F.Continue_Stmt):
-            if not label:
-                out.append("b1")
-        elif isinstance(nd, F.Call_Stmt) and CALL_RE.match(str(nd)) and "psy_data" in str(nd):
-            m = CALL_RE.match(str(nd))
-            var, meth, args = m.group(1), m.group(2).lower(), m.group(3) or ""
-            if meth == "prestart":
-                out.append(["start", ids.var(var.lower())])
-                if lowered_names is not None:
-                    lowered_names.append(tuple(re.findall(r'"([^"]*)"', args)[:2]))
-            elif meth == "postend":
-                out.append(["stop", ids.var(var.lower())])
-            # PreDeclareVariable, PreEndDeclaration, ProvideVariable, PreEnd, PostStart:
-            # straight-line helper calls, not events
-        else:
-            out.append("b1")
+    for nd in nodes:
+        out += abs_fp(nd, ids, lowered_names)
     return out
+
+
+def abs_fp(nd, ids, lowered_names=None):
+    """one fparser2 node of a CodeBlock -> model statements.  Block constructs kept as CodeBlocks are
+    opened up: ASSOCIATE / BLOCK are statement lists of the enclosing list (their opening statement is
+    a step), IF constructs and one-line IFs are `if`, SELECT CASE is a chain of `if`, DO constructs are
+    `do`; every other statement is a CodeBlock step `b1`."""
+    from fparser.two import Fortran2003 as F
+    from fparser.two.utils import BlockBase
+    out = []
+    label = getattr(getattr(nd, "item", None), "label", None)
+    if label:
+        out.append(["label", int(label)])
+    if isinstance(nd, F.Comment):
+        return []
+    if isinstance(nd, F.Exit_Stmt):
+        out.append("exit")
+    elif isinstance(nd, F.Cycle_Stmt):
+        out.append("cycle")
+    elif isinstance(nd, F.Return_Stmt):
+        out.append("ret")
+    elif isinstance(nd, F.Goto_Stmt):
+        out.append(["goto", int(str(nd.items[0]))])
+    elif isinstance(nd, F.Continue_Stmt):
+        if not label:
+            out.append("b1")
+    elif isinstance(nd, F.Call_Stmt) and CALL_RE.match(str(nd)) and "psy_data" in str(nd):
+        m = CALL_RE.match(str(nd))
+        var, meth, args = m.group(1), m.group(2).lower(), m.group(3) or ""
+        if meth == "prestart":
+            out.append(["start", ids.var(var.lower())])
+            if lowered_names is not None:
+                lowered_names.append(tuple(re.findall(r'"([^"]*)"', args)[:2]))
+        elif meth == "postend":
+            out.append(["stop", ids.var(var.lower())])
+        # PreDeclareVariable, PreEndDeclaration, ProvideVariable, PreEnd, PostStart:
+        # straight-line helper calls, not events
+    elif isinstance(nd, F.If_Stmt):
+        out.append(["if", ["b"] + abs_fp(nd.items[1], ids, lowered_names), ["b"]])
+    elif isinstance(nd, F.If_Construct):
+        out.append(abs_branches(nd.content[1:-1], (F.Else_If_Stmt, F.Else_Stmt), F.Else_Stmt, ids, lowered_names))
+    elif isinstance(nd, F.Case_Construct):
+        body = nd.content[1:-1]
+        if body and not isinstance(body[0], F.Case_Stmt):
+            raise ValueError("C28 abstraction: unexpected SELECT CASE layout")
+        out.append("b1")       # evaluation of the selector
+        out += abs_cases(body, ids, lowered_names)
+    elif isinstance(nd, (F.Block_Nonlabel_Do_Construct, F.Block_Label_Do_Construct)):
+        out.append("b1")       # evaluation of the loop control
+        out.append(["do", ["b"] + abs_fp_list(nd.content[1:-1], ids, lowered_names)])
+    elif type(nd).__name__ in ("Associate_Construct", "Block_Construct"):
+        out.append("b1")       # ASSOCIATE evaluates its selectors
+        out += abs_fp_list([c for c in nd.content[1:-1] if not isinstance(c, F.Specification_Part)],
+                           ids, lowered_names)
+    elif isinstance(nd, BlockBase):
+        raise ValueError(f"C28 abstraction: unexpected block construct {type(nd).__name__} in a CodeBlock")
+    else:
+        out.append("b1")
+    return out
+
+
+def abs_branches(body, separators, else_type, ids, lowered_names):
+    """IF construct body -> nested (if THEN ELSE)"""
+    first, rest = [], None
+    for k, c in enumerate(body):
+        if isinstance(c, separators):
+            rest = (c, body[k + 1:])
+            break
+        first.append(c)
+    then = ["b"] + abs_fp_list(first, ids, lowered_names)
+    if rest is None:
+        return ["if", then, ["b"]]
+    sep, tail = rest
+    if isinstance(sep, else_type):
+        return ["if", then, ["b"] + abs_fp_list(tail, ids, lowered_names)]
+    return ["if", then, ["b", abs_branches(tail, separators, else_type, ids, lowered_names)]]
+
+
+def abs_cases(body, ids, lowered_names):
+    """CASE blocks -> list with a chain of `if` (CASE DEFAULT is the final else, wherever it is written)"""
+    from fparser.two import Fortran2003 as F
+    blocks, cur = [], None
+    for c in body:
+        if isinstance(c, F.Case_Stmt):
+            cur = [c, []]
+            blocks.append(cur)
+        else:
+            cur[1].append(c)
+    default = [b for b in blocks if "DEFAULT" in str(b[0]).upper()]
+    normal = [b for b in blocks if "DEFAULT" not in str(b[0]).upper()]
+    tail = ["b"] + (abs_fp_list(default[0][1], ids, lowered_names) if default else [])
+    if not normal:
+        return tail[1:]
+    chain = None
+    for b in reversed(normal):
+        then = ["b"] + abs_fp_list(b[1], ids, lowered_names)
+        chain = ["if", then, tail if chain is None else ["b", chain]]
+    return [chain]
+
+
+def abs_codeblock(cb, ids, lowered_names=None):
+    return abs_fp_list(cb.get_ast_nodes, ids, lowered_names)
 
 
 def abs_node(node, ids, lowered_names=None):
